@@ -1,4 +1,7 @@
 import IkeModel
+import DriverEap
+import DriverOps
+import DriverKeys
 
 /-! Model driver: one operation per input line, one result per output line
 (`ok <canonical value>` | `err` | `panic`).  Run by the Go harness, which
@@ -138,7 +141,8 @@ def handle (line : String) : String :=
   let ts := Sx.tokens line
   if h : 0 < ts.size then
     let op := ts[0]
-    if op == "dec" then
+    if let some r := handleEap ts then r
+    else if op == "dec" then
       if h3 : ts.size = 3 then
         match parseX ts[2] with
         | some b => decOp ts[1] b
@@ -155,6 +159,8 @@ def handle (line : String) : String :=
     else if op == "spec-sk" then protectOp ts true
     else if op == "unprotect" then unprotectOp ts
     else if op == "cbc-decrypt" then cbcDecryptOp ts
+    else if let some r := handleOps ts then r
+    else if let some r := handleKeys ts then r
     else "bad-op"
   else "bad-op"
 
